@@ -194,7 +194,7 @@ func postFrameHistories(ctx *context, ag *aggregate) {
 		type iv struct{ from, to int64 }
 		heldIv := map[int64][]iv{}
 		open := map[[2]int64]int64{} // (client, frame) -> alloc.call
-		for _, o := range h.Ops { // ops are grouped per client in program order
+		for _, o := range h.Ops {    // ops are grouped per client in program order
 			cl, kind, fr, call, ret, out := o[0], o[1], o[2], o[3], o[4], o[5]
 			if kind == 0 && out == 0 {
 				open[[2]int64{cl, fr}] = call
